@@ -6,23 +6,24 @@ resolves to zero or several candidates raises AnchorMissing (the check fails clo
 from facts import walk, callee_of, call_args, AnchorMissing
 import hirq
 
-T_CTRLS = 'std::vec::Vec<controls_impl::Control>'
+T_CTRLS = 'alloc::vec::Vec<controls_impl::Control>'
 T_RESULT_PAYLOAD = '(lber::structures::Tag, %s)' % T_CTRLS
 T_ITEM_PAYLOAD = '(search::SearchItem, %s)' % T_CTRLS
 T_RESULT_SENDER = 'tokio::sync::oneshot::Sender<%s>' % T_RESULT_PAYLOAD
-T_ITEM_SENDER = 'tokio::sync::mpsc::UnboundedSender<%s>' % T_ITEM_PAYLOAD
-T_ITEM_RECEIVER = 'tokio::sync::mpsc::UnboundedReceiver<%s>' % T_ITEM_PAYLOAD
-T_RESULTMAP = 'std::collections::HashMap<i32, %s>' % T_RESULT_SENDER
-T_SEARCHMAP = 'std::collections::HashMap<i32, %s>' % T_ITEM_SENDER
-T_IDSET = 'std::collections::HashSet<i32>'
+T_ITEM_SENDER = 'tokio::sync::mpsc::unbounded::UnboundedSender<%s>' % T_ITEM_PAYLOAD
+T_ITEM_RECEIVER = 'tokio::sync::mpsc::unbounded::UnboundedReceiver<%s>' % T_ITEM_PAYLOAD
+T_RESULTMAP = 'std::collections::hash::map::HashMap<i32, %s>' % T_RESULT_SENDER
+T_SEARCHMAP = 'std::collections::hash::map::HashMap<i32, %s>' % T_ITEM_SENDER
+T_IDSET = 'std::collections::hash::set::HashSet<i32>'
 T_IDPAIR = '(i32, %s)' % T_IDSET
-T_IDTABLE = 'std::sync::Arc<std::sync::Mutex<%s>>' % T_IDPAIR
-T_IDGUARD_PREFIX = 'std::sync::MutexGuard<'
-T_REQ_TUPLE = '(i32, protocol::LdapOp, lber::structures::Tag, std::option::Option<std::vec::Vec<controls_impl::RawControl>>, %s)' % T_RESULT_SENDER
-T_REQ_SENDER = 'tokio::sync::mpsc::UnboundedSender<%s>' % T_REQ_TUPLE
-T_REQ_RECEIVER = 'tokio::sync::mpsc::UnboundedReceiver<%s>' % T_REQ_TUPLE
-T_SCRUB_SENDER = 'tokio::sync::mpsc::UnboundedSender<i32>'
-T_SCRUB_RECEIVER = 'tokio::sync::mpsc::UnboundedReceiver<i32>'
+T_IDTABLE = 'alloc::sync::Arc<std::sync::poison::mutex::Mutex<%s>>' % T_IDPAIR
+T_IDGUARD_PREFIX = 'std::sync::poison::mutex::MutexGuard<'
+T_REQ_TUPLE = '(i32, protocol::LdapOp, lber::structures::Tag, core::option::Option<alloc::vec::Vec<controls_impl::RawControl>>, %s)' % T_RESULT_SENDER
+T_REQ_SENDER = 'tokio::sync::mpsc::unbounded::UnboundedSender<%s>' % T_REQ_TUPLE
+T_REQ_RECEIVER = 'tokio::sync::mpsc::unbounded::UnboundedReceiver<%s>' % T_REQ_TUPLE
+T_SCRUB_SENDER = 'tokio::sync::mpsc::unbounded::UnboundedSender<i32>'
+T_SCRUB_RECEIVER = 'tokio::sync::mpsc::unbounded::UnboundedReceiver<i32>'
+T_OPT = 'core::option::Option<%s>'
 T_DECODED = '(i32, (lber::structures::Tag, %s))' % T_CTRLS
 
 def is_idguard(t):
@@ -66,20 +67,20 @@ class Conn:
         cands = []
         for path, h in facts.hir.items():
             arms = hirq.select_arms(h['body'])
-            if any(a['ty'] == 'std::option::Option<%s>' % T_REQ_TUPLE for a in arms):
+            if any(a['ty'] == T_OPT % T_REQ_TUPLE for a in arms):
                 cands.append((path, arms))
         self.loop_path, arms = one('driver loop (select! over the request channel)', cands)
         self.loop = hirq.Body(facts, facts.hir[self.loop_path])
         self.arms = {}
         for a in arms:
             t = a['ty']
-            if t == 'std::option::Option<%s>' % T_REQ_TUPLE:
+            if t == T_OPT % T_REQ_TUPLE:
                 self.arms['request'] = a
-            elif t == 'std::option::Option<i32>':
+            elif t == T_OPT % 'i32':
                 self.arms['scrub'] = a
-            elif t == 'std::option::Option<std::result::Result<%s, std::io::Error>>' % T_DECODED:
+            elif t == T_OPT % ('core::result::Result<%s, std::io::error::Error>' % T_DECODED):
                 self.arms['response'] = a
-            elif t == 'std::option::Option<protocol::MiscSender>':
+            elif t == T_OPT % 'protocol::MiscSender':
                 self.arms['misc'] = a
             else:
                 self.arms.setdefault('other', []).append(a)
